@@ -217,7 +217,14 @@ fn jsonnum_case(out: &mut Out, text: &[u8]) {
 		Ok(serde_json::Value::Array(a)) if a.len() == 1 => match &a[0] {
 			serde_json::Value::Number(n) if n.is_u64() => format!("u64:{}", n.as_u64().unwrap()),
 			serde_json::Value::Number(n) if n.is_i64() => format!("i64:{}", n.as_i64().unwrap()),
-			serde_json::Value::Number(_) => "float".to_string(),
+			// The literal is the input without surrounding whitespace.
+			serde_json::Value::Number(_) => {
+				let t: &[u8] = text;
+				let is_ws = |b: &u8| matches!(b, b' ' | b'\n' | b'\t' | b'\r');
+				let start = t.iter().position(|b| !is_ws(b)).unwrap_or(0);
+				let end = t.iter().rposition(|b| !is_ws(b)).map_or(0, |i| i + 1);
+				format!("float:{}", hex(&t[start..end]))
+			}
 			_ => "other".to_string(),
 		},
 		Ok(_) => "other".to_string(),
@@ -482,6 +489,33 @@ pub fn run(out: &mut Out, rng: &mut Rng, thorough: bool) {
 			t.push_str(&e.to_string());
 		}
 		jsonnum_case(out, t.as_bytes());
+	}
+
+	// ---- hypotheses about the float boundary (`ExtFloat`), sampled on
+	// serde_json itself: what it writes for a finite f64 contains no newline
+	// (`NoNewline`), starts like a number and reads back as a float
+	// (`FloatLit`, via the `jsonnum` correspondence on that text), reads back
+	// to the same bits, and is written the same way again (`FmtParseFmt`).
+	let mut bit_patterns: Vec<u64> = crate::gen::NASTY_F64_BITS.to_vec();
+	for _ in 0..(if thorough { 20000 } else { 3000 }) {
+		bit_patterns.push(crate::gen::gen_f64(rng, false));
+	}
+	for bits in bit_patterns {
+		let x = f64::from_bits(bits);
+		if !x.is_finite() {
+			continue;
+		}
+		let text = serde_json::to_string(&x).unwrap_or_default();
+		let back = serde_json::from_str::<f64>(&text);
+		let again = back.as_ref().ok().and_then(|y| serde_json::to_string(y).ok());
+		let head_ok = text.bytes().next().map_or(false, |b| b == b'-' || b.is_ascii_digit());
+		let is_float_token = text.bytes().any(|b| matches!(b, b'.' | b'e' | b'E'));
+		out.eval("ExtFloat.NoNewline+FloatLit.head+FmtParseFmt+RoundTrip", &text, true);
+		if text.contains('\n') || !head_ok || !is_float_token || again.as_deref() != Some(text.as_str()) || back.ok().map(f64::to_bits) != Some(bits) {
+			out.fail("ExtFloat_hypotheses", "extfloat", format!("bits={bits:016x} text={text} again={again:?}"));
+		}
+		jsonnum_case(out, text.as_bytes());
+		out.count("hyp.ExtFloat.samples");
 	}
 
 	// ---- json: fixed specials
